@@ -136,6 +136,10 @@ pub struct MState {
     pub acked: Vec<Rec>,
     /// what the policy was shown at the last operation: (length, fired)
     pub consult: Option<(u64, bool)>,
+    /// a second length the policy may have been shown at the last operation.  Once an on-start-up
+    /// trigger has made its one decision, no property says whether later consultations come before or
+    /// after the record is written (both show the true size of the file at that moment).
+    pub consult_alt: Option<u64>,
 }
 
 pub fn payload(label: u32, size: u32, multibyte: bool) -> Vec<u8> {
@@ -243,6 +247,7 @@ impl World {
             nops: 0,
             acked: vec![],
             consult: None,
+            consult_alt: None,
         };
         if self.append {
             if let Some(n) = self.pre {
@@ -256,6 +261,7 @@ impl World {
     pub fn model_step(&self, s: &MState, op: &Op) -> MState {
         let mut st = s.clone();
         st.consult = None;
+        st.consult_alt = None;
         let label = st.nops;
         st.nops += 1;
         match op {
@@ -269,8 +275,12 @@ impl World {
                 let rec = (*size, label);
                 if self.trig.is_pre() {
                     let len = len_of(&st.active);
+                    let decided_before = matches!(self.trig, Trig::OnStartup(_)) && st.first_done;
                     let fire = self.decide(&mut st, len);
                     st.consult = Some((len, fire));
+                    if decided_before {
+                        st.consult_alt = Some(len + *size as u64);
+                    }
                     if fire {
                         self.model_roll(&mut st);
                         st.active = Some(vec![]);
@@ -498,7 +508,7 @@ impl World {
                         format!("the policy was shown len_estimate()={} while the active file holds {:?} bytes", c.seen, c.true_len),
                     ));
                 }
-                if c.seen != *len {
+                if c.seen != *len && Some(c.seen) != st.consult_alt {
                     return Err(("size-accounting:len_estimate-differs-from-model".into(), format!("the policy was shown {} bytes, the model says {}", c.seen, len)));
                 }
                 if c.rolled != *fire {
